@@ -768,9 +768,15 @@ fn parse_window(cs: &[&[Item]], nodes: &[Node], pos: usize) -> BTreeMap<usize, V
     reach
 }
 
+/// Number of calls (at any depth) during which the adapter pulled a closure of an earlier stage: the
+/// re-entrant situation of issue #205.
+fn reentrant_windows(nodes: &[Node]) -> usize {
+    nodes.iter().map(|n| usize::from(!n.children.is_empty()) + reentrant_windows(&n.children)).sum()
+}
+
 /// The abstract schedule of one real run: `construction` = the calls logged before `interpret_ir`
 /// returned, `consumption` = those logged while the rows were collected.
-fn abstract_schedule(plan: &[Item], construction: &[Ev], consumption: &[Ev]) -> Result<Vec<u64>, String> {
+fn abstract_schedule(plan: &[Item], construction: &[Ev], consumption: &[Ev]) -> Result<(Vec<u64>, usize), String> {
     let built = forest(construction).ok_or("unbalanced-construction-log")?;
     let pulled = forest(consumption).ok_or("unbalanced-consumption-log")?;
     let (end, mut toks) = parse_pipeline(plan, &built, 0).ok_or("construction-does-not-parse")?;
@@ -781,7 +787,7 @@ fn abstract_schedule(plan: &[Item], construction: &[Ev], consumption: &[Ev]) -> 
     let w = parse_window(&root, &pulled, 0);
     toks.extend(w.get(&pulled.len()).ok_or("consumption-does-not-parse")?.iter().copied());
     toks.push(STOP);
-    Ok(toks)
+    Ok((toks, reentrant_windows(&built) + reentrant_windows(&pulled)))
 }
 
 /// Run the real engine under one batching schedule with the span log; `None` when it panics or the
@@ -803,7 +809,7 @@ fn traced_run(p: &crate::engine::run::Prepared, q: &Arc<IndexedQuery>, args: &BT
 }
 
 /// `(abs n…)` of a real run, or the reason it cannot be given.
-fn abs_of(p: &crate::engine::run::Prepared, q: &Arc<IndexedQuery>, args: &BTreeMap<String, FieldValue>, s: &Sched) -> Result<Vec<u64>, String> {
+fn abs_of(p: &crate::engine::run::Prepared, q: &Arc<IndexedQuery>, args: &BTreeMap<String, FieldValue>, s: &Sched) -> Result<(Vec<u64>, usize), String> {
     let (built, pulled) = traced_run(p, q, args, s).ok_or("run-failed")?;
     abstract_schedule(&plan_of(&q.ir_query), &built, &pulled)
 }
@@ -829,14 +835,14 @@ fn eval_carrier_trace(args: &[Sexp]) -> Option<String> {
     }
     match abs_of(&p, &q, &r.args, &sched) {
         Err(why) => Some(format!("(trace-mismatch {why})")),
-        Ok(toks) => {
+        Ok((toks, reentrant)) => {
             if abs_sexp(&toks) != *abs {
                 return Some("(trace-mismatch abstract-schedule-differs-from-request)".to_string());
             }
             let acts = toks.iter().filter(|t| **t != STOP).count();
             ABS_STATS.with(|c| {
                 let (n, a, nested) = c.get();
-                c.set((n + 1, a + acts as u64, nested));
+                c.set((n + 1, a + acts as u64, nested + reentrant as u64));
             });
             Some(format!("(trace ok {acts} 0)"))
         }
@@ -844,7 +850,7 @@ fn eval_carrier_trace(args: &[Sexp]) -> Option<String> {
 }
 
 thread_local! {
-    /// (traces translated, closure activations in them, unused)
+    /// (traces translated, closure activations in them, re-entrant windows in them)
     static ABS_STATS: Cell<(u64, u64, u64)> = const { Cell::new((0, 0, 0)) };
 }
 
@@ -1213,13 +1219,19 @@ fn trace_cases(base_req: &Sexp, tags: &[String], rng: &mut Rng, n_rand: usize) -
     let q = q.clone();
     let fixed = std_schedules();
     // the #205 schedule, chunks 1,2,3,4 on both sides, everything pre-fetched on both sides
-    let mut scheds = vec![fixed[1].clone(), fixed[6].clone(), fixed[9].clone()];
+    let mut scheds = vec![fixed[1].clone(), fixed[9].clone()];
+    if n_rand > 1 {
+        scheds.push(fixed[6].clone());
+    }
     scheds.extend(rand_schedules(rng.next_u64() >> 1, n_rand));
     let mut out = vec![];
     for s in scheds {
         // a run that fails (known engine panics) has no complete trace
-        let Some(_) = traced_run(&p, &q, &r.args, &s) else { continue };
-        let toks = abs_of(&p, &q, &r.args, &s).unwrap_or_default();
+        let (toks, reentrant) = match abs_of(&p, &q, &r.args, &s) {
+            Ok(x) => x,
+            Err(why) if why == "run-failed" => continue,
+            Err(_) => Default::default(),
+        };
         let mut req = base_req.clone();
         if let Sexp::List(v) = &mut req {
             v.push(s.to_sexp());
@@ -1230,6 +1242,9 @@ fn trace_cases(base_req: &Sexp, tags: &[String], rng: &mut Rng, n_rand: usize) -
         let acts = toks.iter().filter(|x| **x != STOP).count();
         if acts > 0 {
             t.push("nt:trace+activations".to_string());
+        }
+        if reentrant > 0 {
+            t.push("nt:trace+reentrant-window".to_string());
         }
         out.push(Case { request: req, tags: t });
     }
@@ -1248,7 +1263,7 @@ impl Prop for C02 {
         "C02"
     }
     fn rule(&self) -> &'static str {
-        "(batch-exec ...): the worlds of C01 (same generator, same seed; quick 40 schemas, thorough 120: schemas x 2 datasets x ~10 accepted type-directed queries with plain/optional/fold/nested-fold/recurse edges, coercions, filters with variable/tag/imported-tag/fold-count operands, count outputs and filters); every (dataset, query) is run unbatched over the lazy table adapter and then under every schedule of the request: the 24 fixed ones (wrapper default = every resolver call pre-fetches one element; the [0,0,MAX] schedule of repro_issue_205; chunks of 4; chunks 1,2,3,4,...; pre-fetch EVERYTHING before the first output on the output side / the input side / both; lazy-then-everything; and the #205 shape 'all calls minimal, the i-th call pre-fetches everything' for i < 12) plus seeded random ones (0..24 per-call entries, each re-batching input, output or both with a random u64 digit sequence, 0, MAX, or explicit chunk sizes 0..4 then everything; exhausted schedules continue with 0 or cyclically) - quick 24+24, thorough 24+1976 per query. The answer is the unbatched rows when all schedules agree, (batch-mismatch <schedule> ...) otherwise; the Lean side answers the rows of the list-level interpreter, which does not look at the schedule. (batch-numbers ...): the same for the repo's own valid numbers test queries over the repo's NumbersAdapter. (plan ...)/(plan-numbers ...): the ownership plan (bracket sites, closures) derived in Rust from the real IRQuery must equal the Lean planOf of the rendered IR, and the real engine's adapter-call log over the lazy adapter must conform to it (calls before the first pull = root pipeline; every later burst of calls = body of one fold closure). (chunk ...): batch sizes of the chunk iterator vs the Lean chunk. A case is non-trivial (nt:) when the query has a fold (a pull-time closure exists) and the unbatched run returned rows, or for plan requests when at least one closure burst was observed. Oracle: any (batch-mismatch ...) answer - rows differ or a panic appears/disappears under some schedule - and any (carrier-panic ...) answer: a run, batched or not, died with expect(\"query was not returned\")."
+        "(batch-exec ...): the worlds of C01 (same generator, same seed; quick 40 schemas, thorough 120: schemas x 2 datasets x ~10 accepted type-directed queries with plain/optional/fold/nested-fold/recurse edges, coercions, filters with variable/tag/imported-tag/fold-count operands, count outputs and filters); every (dataset, query) is run unbatched over the lazy table adapter and then under every schedule of the request: the 24 fixed ones (wrapper default = every resolver call pre-fetches one element; the [0,0,MAX] schedule of repro_issue_205; chunks of 4; chunks 1,2,3,4,...; pre-fetch EVERYTHING before the first output on the output side / the input side / both; lazy-then-everything; and the #205 shape 'all calls minimal, the i-th call pre-fetches everything' for i < 12) plus seeded random ones (0..24 per-call entries, each re-batching input, output or both with a random u64 digit sequence, 0, MAX, or explicit chunk sizes 0..4 then everything; exhausted schedules continue with 0 or cyclically) - quick 24+24, thorough 24+1976 per query. The answer is the unbatched rows when all schedules agree, (batch-mismatch <schedule> ...) otherwise; the Lean side answers the rows of the list-level interpreter, which does not look at the schedule. (batch-numbers ...): the same for the repo's own valid numbers test queries over the repo's NumbersAdapter. (plan ...)/(plan-numbers ...): the ownership plan (bracket sites, closures) derived in Rust from the real IRQuery must equal the Lean planOf of the rendered IR, and the real engine's adapter-call log over the lazy adapter must conform to it (calls before the first pull = root pipeline; every later burst of calls = body of one fold closure). (carrier-trace ...): for queries with folds the real engine is run under a batching schedule with every resolver call bracketed in a log; the nested log must parse by the grammar the carrier machine assigns (pipeline = its calls, each with a window of activations of earlier closures; activation = the body's pipeline, then a window over its closures) and the resulting abstract schedule, carried in the request, must be served by the Lean machine activation for activation and read to its end (nt: at least one activation / at least one re-entrant window, i.e. a closure run during a construction-time call as in #205). (chunk ...): batch sizes of the chunk iterator vs the Lean chunk. A case is non-trivial (nt:) when the query has a fold (a pull-time closure exists) and the unbatched run returned rows, or for plan requests when at least one closure burst was observed. Oracle: any (batch-mismatch ...) answer - rows differ or a panic appears/disappears under some schedule - and any (carrier-panic ...) answer: a run, batched or not, died with expect(\"query was not returned\")."
     }
     fn generate(&self, tier: Tier, rng: &mut Rng) -> Vec<Case> {
         let n_rand = if tier == Tier::Quick { 24 } else { 1976 };
@@ -1434,7 +1449,7 @@ impl Prop for C02 {
             "skipped_results_over_row_limit": {"limit": GENERATOR_ROW_LIMIT, "skipped": self.skipped_large.get()},
             "fixed_schedules": std_schedules().iter().map(|s| s.to_sexp().to_string()).collect::<Vec<_>>(),
             "batched_executions": BATCHED_RUNS.with(|c| c.get()),
-            "real_interleavings_as_abstract_schedules": {"traces": ABS_STATS.with(|c| c.get().0), "closure_activations": ABS_STATS.with(|c| c.get().1)},
+            "real_interleavings_as_abstract_schedules": {"traces": ABS_STATS.with(|c| c.get().0), "closure_activations": ABS_STATS.with(|c| c.get().1), "reentrant_windows": ABS_STATS.with(|c| c.get().2)},
             "trace_conformance": {"plan_requests_with_conforming_log": checked, "closure_bursts_matched": bursts, "closure_bodies_seen": distinct},
         })
     }
